@@ -30,11 +30,12 @@ class AsyncRun:
         self.send(c, [b'ECHO', self.marker(c)])
         self.pump(c, 1.0, want_all=True)
 
-    def send(self, c, *argvs):
-        """Send one or several requests in ONE write (a pipelined batch)."""
+    def send(self, c, *argvs, extra=None):
+        """Send one or several requests in ONE write (a pipelined batch).  extra: fields added to the event of the
+        (single) request, e.g. the program of a script."""
         t0 = self.trace.now()
         for a in argvs:
-            self.recs[c].append({'argv': a, 'r': None, 't0': t0, 't1': None})
+            self.recs[c].append({'argv': a, 'r': None, 't0': t0, 't1': None, 'extra': extra})
         self.cl[c].send_raw(b''.join(resp.enc_cmd(a) for a in argvs))
 
     def pending(self, c):
@@ -64,8 +65,8 @@ class AsyncRun:
             if not want_all and time.monotonic() >= end:
                 return
 
-    def call(self, c, argv, timeout=2.0):
-        self.send(c, argv)
+    def call(self, c, argv, timeout=2.0, extra=None):
+        self.send(c, argv, extra=extra)
         self.pump(c, timeout, want_all=True)
 
     def sync(self, n=3):
@@ -130,6 +131,8 @@ class AsyncRun:
         nxt = {c: 0 for c in self.recs}
         opened = set()
         closed_emitted = set()
+        awaiting = set()       # clients whose last logged request blocked and who DID receive its reply before closing:
+                               # their close comes after the server's served/timeout record, not before it
 
         def maybe_close(c):
             ca = self.closed_at.get(c)
@@ -156,14 +159,21 @@ class AsyncRun:
                 ev = {'k': 'cmd', 'c': c, 'argv': [list(a) for a in rec['argv']], 'r': resp.to_json(r),
                       't0': rec['t0'], 't1': rec['t1'] if rec['t1'] is not None else tr.now() + 1, 'seq': e['seq']}
                 ev['sr'] = e['frames'][1] if e['kind'] == 'cmd' else {'t': 'handler_err'}
+                ev.update(rec.get('extra') or {})
                 req = e['frames'][0]
                 sargv = [x.get('v', []) for x in req['v']] if req.get('t') == 'arr' else None
                 if sargv != ev['argv']:
                     ev['sargv'] = sargv
                 tr.emit(ev)
-                maybe_close(c)
+                if ev['sr'].get('t') == 'none' and rec['r'] is not None and rec['r'][0] not in ('closed', 'none'):
+                    awaiting.add(c)
+                else:
+                    maybe_close(c)
             elif e['kind'] in ('served', 'timeout'):
                 tr.emit({'k': e['kind'], 'c': c, 'frames': e['frames'], 'seq': e['seq']})
+                if c in awaiting:
+                    awaiting.discard(c)
+                    maybe_close(c)
             # 'wake' records (the pop attempt) are diagnostic only
         for c, recs in self.recs.items():
             for rec in recs[nxt[c]:]:
@@ -171,8 +181,10 @@ class AsyncRun:
                     opened.add(c)
                     tr.emit({'k': 'open', 'c': c})
                 r = rec['r'] if rec['r'] is not None else ('none',)
-                tr.emit({'k': 'unlogged', 'c': c, 'argv': [list(a) for a in rec['argv']], 'r': resp.to_json(r),
-                         't0': rec['t0'], 't1': rec['t1'] or tr.now()})
+                ev = {'k': 'unlogged', 'c': c, 'argv': [list(a) for a in rec['argv']], 'r': resp.to_json(r),
+                      't0': rec['t0'], 't1': rec['t1'] or tr.now()}
+                ev.update(rec.get('extra') or {})
+                tr.emit(ev)
         if snap is not None:
             regs = []
             for r in snap.get('regs', []):
